@@ -573,6 +573,10 @@ def plan_c01(tier, seed):
                         jobs.append(with_delay_fallback(wf("C01", g, i, 1, m, kind, oracles=o, tier=tier, events_dep=False, crash=True, disk_dep=(m == 1),
                                                            fault={"proc": p, "match": mt, "kind": fk}, id=f"C01-fault-{g}-i{i}-m{m}-{kind}-{p}-{mt}-{fk}")))
         jobs.append(wf("C01", "g2", 1, 1, 1, "func", oracles=o + ["clean"], tier=tier, events_dep=False, crash=True, disk_dep=True, extra="writeidiom", id="C01-gofunc-write-idiom"))
+        # a file-writing component: every part FileSplitter finalizes is complete at every instant
+        jobs.append(with_delay_fallback(wf("C01", "gsplit1", 1, 1, 1, "func", oracles=o + ["clean"], tier=tier, events_dep=False, crash=True, disk_dep=True, id="C01-crash-filesplitter-3lines")))
+        if tier != "quick":
+            jobs.append(with_delay_fallback(wf("C01", "gsplit1", 2, 1, 2, "func", oracles=o + ["clean"], tier=tier, events_dep=False, crash=True, disk_dep=False, id="C01-crash-filesplitter-2files")))
         return jobs
     return {"level": "fault_enumeration", "stages": [stage1],
             "rule": "crash points: the disk after EVERY file-system mutation (partial writes, each rename, each step of temp-dir removal) of every explored schedule (one task in flight: FS mutations globally dependent, closed; two in flight: path-dependent DPOR + delay bound) x fault kinds {exit before/mid/after writing, killed, output missing} per task; state predicate on every such disk: a declared output that exists holds the complete reference bytes and its task ended successfully, every other new data file is below a _scipipe_tmp* directory; distinct_nontrivial = distinct crash states + distinct (fault, outcome) pairs",
